@@ -130,15 +130,26 @@ def escapeAssertion (s : Str) : Str := escapeKind 'r' (escapeKind 'p' s)
 def removeComments (s : Str) : Str :=
   if s.contains '#' then strip (s.takeWhile (· != '#')) else s
 
-/-! ## `eval_reg = \beval\((?P<rule>[^)]*)\)`: `has_eval`, `get_eval_value`, `replace_eval` -/
+/-! ## `eval_reg = \beval\s*\(\s*(?P<rule>[^)]*?)\s*\)`: `has_eval`, `get_eval_value`, `replace_eval`
+     (after the F01c repair: white space is tolerated between `eval` and `(` and around the argument; the
+     group is the argument without the surrounding white space) -/
 
-def evalLit : Str := ['e', 'v', 'a', 'l', '(']
+def evalWord : Str := ['e', 'v', 'a', 'l']
 
-/-- `eval\(([^)]*)\)` at the head of the text: the group -/
-def evalAt (s : Str) : Option Str :=
-  match dropPrefix? evalLit s with
+/-- `eval\s*\(\s*([^)]*?)\s*\)` at the head of the text: the group, and the number of characters of the match
+    after its first one. The lazy group followed by `\s*\)` is the text up to the first `)` without its leading
+    (taken by the greedy `\s*` before it) and trailing white space. -/
+def evalAt (s : Str) : Option (Str × Nat) :=
+  match dropPrefix? evalWord s with
   | none => none
-  | some t => if t.contains ')' then some (t.takeWhile (· != ')')) else none
+  | some t =>
+    match t.dropWhile isSpace with
+    | '(' :: u =>
+      if u.contains ')' then
+        some (strip (u.takeWhile (· != ')')),
+              3 + (t.takeWhile isSpace).length + 1 + (u.takeWhile (· != ')')).length + 1)
+      else none
+    | _ => none
 
 /-- `eval_reg.findall(s)`. First argument: characters of the current match still to be skipped. -/
 def findEvals : Nat → Bool → Str → List Str
@@ -146,7 +157,7 @@ def findEvals : Nat → Bool → Str → List Str
   | n + 1, _, _ :: t => findEvals n false t
   | 0, pw, c :: t =>
     match (if pw then none else evalAt (c :: t)) with
-    | some name => name :: findEvals (name.length + 5) false t
+    | some (name, skip) => name :: findEvals skip false t
     | none => findEvals 0 (isWord c) t
 
 def getEvalValue (s : Str) : List Str := findEvals 0 false s
@@ -158,10 +169,10 @@ def replaceEvalAux : Nat → Bool → Str → List Str → Option Str
   | n + 1, _, _ :: t, rules => replaceEvalAux n false t rules
   | 0, pw, c :: t, rules =>
     match (if pw then none else evalAt (c :: t)) with
-    | some name =>
+    | some (_, skip) =>
       match rules with
       | [] => none
-      | r :: rs => (replaceEvalAux (name.length + 5) false t rs).map fun out => '(' :: (r ++ ')' :: out)
+      | r :: rs => (replaceEvalAux skip false t rs).map fun out => '(' :: (r ++ ')' :: out)
     | none => (replaceEvalAux 0 (isWord c) t rules).map (c :: ·)
 
 def replaceEval (s : Str) (rules : List Str) : Option Str := replaceEvalAux 0 false s rules
